@@ -6,7 +6,7 @@ use crate::proto::{guarded, hex, Sink};
 use crate::rng::Rng;
 use crate::Cfg;
 use in_toto::crypto::PublicKey;
-use in_toto::interchange::{DataInterchange, JsonPretty};
+use in_toto::interchange::{DataInterchange, Json, JsonPretty};
 use in_toto::models::{Metablock, MetablockBuilder, MetadataWrapper};
 
 fn vblock_op(t: u32, auth: &[&KeyInfo], entries: &[Entry]) -> String {
@@ -55,9 +55,15 @@ pub fn run(cfg: &Cfg) {
                     continue;
                 }
             };
-            for fmt in ["compact", "pretty", "JsonPretty"] {
+            for fmt in ["compact", "pretty", "JsonPretty", "Json"] {
                 let text = match fmt {
                     "compact" => serde_json::to_vec(&mb).unwrap(),
+                    "Json" => {
+                        // the library's own compact interchange (canonical writer)
+                        let mut b = Vec::new();
+                        Json::to_writer(&mut b, &mb).unwrap();
+                        b
+                    }
                     "pretty" => serde_json::to_vec_pretty(&mb).unwrap(),
                     _ => {
                         let mut b = Vec::new();
